@@ -324,6 +324,27 @@ static void do_scale_parse(const jv *units, int full)
             }
         }
     }
+    /* mixed bodies: every ordered pair and triple of units, with and without plain bytes behind them (a decoder that is unit-wise carries no state from one
+     * unit into the next: lemma UnitWise of MC_Parse) */
+    {
+        size_t a, b, c, nu = units->n; int tl3, askey2;
+        for (a = 0; a < nu; a++) for (b = 0; b < nu; b++) for (c = 0; c <= nu; c++) for (tl3 = 0; tl3 < 2; tl3++) for (askey2 = 0; askey2 < 2; askey2++) {
+            unsigned char text[160], exp[160]; size_t tl = 0, el = 0, k, q; size_t pick[3]; int np = (c == nu) ? 2 : 3; char what[160];
+            if (!full && np == 3 && ((a * 31 + b * 7 + c) % 3) != 0) continue;          /* a third of the triples in the quick tier */
+            pick[0] = a; pick[1] = b; pick[2] = c;
+            text[tl++] = askey2 ? '{' : '['; text[tl++] = '"';
+            for (q = 0; q < (size_t)np; q++) { const jv *ub = jv_at(units->e[pick[q]], 0), *db = jv_at(units->e[pick[q]], 1);
+                for (k = 0; k < ub->n && tl < 120; k++) text[tl++] = (unsigned char)jv_int(ub->e[k]); for (k = 0; k < db->n && el < 120; k++) exp[el++] = (unsigned char)jv_int(db->e[k]); }
+            if (tl3) { memcpy(text + tl, "xyz", 3); tl += 3; memcpy(exp + el, "xyz", 3); el += 3; }
+            text[tl++] = '"'; if (askey2) { text[tl++] = ':'; text[tl++] = '1'; text[tl++] = '}'; } else text[tl++] = ']';
+            text[tl] = 0;
+            snprintf(what, sizeof(what), "a %s made of units %zu, %zu%s of the table%s", askey2 ? "key" : "string", a + 1, b + 1, np == 3 ? " and a third" : "", tl3 ? " followed by xyz" : "");
+            scale_check(text, tl, exp, el, askey2, what);
+            if (VD.violations > 20) return;
+            if (((b * (nu + 1) + c) & 31) == 0 && !tl3 && !askey2) { if (al_live == 0) al_case_begin(); vd_tick(); }      /* keep the block registry short */
+        }
+        vd_tick();
+    }
 }
 
 /* numeric sweep (C02): seeded families of RFC 8259 number literals; every (literal, valuedouble, valueint) goes to the correctly rounding oracle */
